@@ -9,13 +9,17 @@ use crate::{
 };
 use parking_lot::Mutex;
 use std::{
-    collections::{hash_map::RandomState, HashMap},
+    collections::hash_map::RandomState,
     hash::BuildHasher,
     sync::{
         atomic::{AtomicI64, Ordering},
         Arc,
     },
 };
+#[cfg(not(all(transparencies_stretto_verif, kani)))]
+use std::collections::HashMap;
+#[cfg(all(transparencies_stretto_verif, kani))]
+use crate::verif_kmap::HashMap;
 
 /// DEFAULT_SAMPLES is the number of items to sample when looking at eviction
 /// candidates. 5 seems to be the most optimal number [citation needed].
@@ -497,3 +501,7 @@ impl TinyLFU {
         self.doorkeeper.contains(kh)
     }
 }
+
+#[cfg(all(transparencies_stretto_verif, any(kani, test)))]
+#[path = "/verif/harness/h_policy.rs"]
+mod verif_harness;
